@@ -10,6 +10,7 @@ import (
 	"github.com/jmsadair/raft/logging"
 	"github.com/jmsadair/raft/xsim/simos"
 	"github.com/jmsadair/raft/xsim/simrt"
+	"github.com/jmsadair/raft/xsim/simtime"
 )
 
 // Disk-only engine (C12, C13): a seeded program of storage API calls runs on the
@@ -185,6 +186,8 @@ func classifyDiskErr(err error) string {
 		return "garbage-after-tail"
 	case strings.Contains(s, "remove temporary"):
 		return "tmp-cleanup"
+	case strings.Contains(s, "panic while"):
+		return "panic"
 	}
 	return "other"
 }
@@ -213,8 +216,22 @@ func newDiskFS() *simos.FS {
 	return fs
 }
 
-// openLog opens the log over the current image with the repository's code.
-func openLog() (raft.Log, error) {
+// openLog opens the log over the current image with the repository's code. A panic in the
+// code under test (or an os.Exit / an armed crash trigger) is reported as an error of kind
+// "panic": reopening must succeed, so it is a violation, not an infrastructure problem.
+func openLog() (lg raft.Log, err error) {
+	defer func() {
+		if r := recover(); r != nil {
+			if _, isCrash := r.(simos.CrashPanic); isCrash {
+				panic(r)
+			}
+			lg, err = nil, fmt.Errorf("panic while reopening: %v", r)
+		}
+	}()
+	return openLogUnsafe()
+}
+
+func openLogUnsafe() (raft.Log, error) {
 	lg, err := raft.NewLog("/d")
 	if err != nil {
 		return nil, fmt.Errorf("NewLog: %w", err)
@@ -255,7 +272,16 @@ func execLogOp(lg raft.Log, o diskOp) (raft.Log, error) {
 }
 
 // compareLog checks the reopened log against a model through the public API.
-func compareLog(lg raft.Log, m *logModel) string {
+func compareLog(lg raft.Log, m *logModel) (why string) {
+	defer func() {
+		if r := recover(); r != nil {
+			why = fmt.Sprintf("panic while reading the reopened log: %v", r)
+		}
+	}()
+	return compareLogUnsafe(lg, m)
+}
+
+func compareLogUnsafe(lg raft.Log, m *logModel) string {
 	if lg.LastIndex() != m.last() {
 		return fmt.Sprintf("LastIndex %d, expected %d", lg.LastIndex(), m.last())
 	}
@@ -308,6 +334,7 @@ func progString(prog []diskOp, upto int) string {
 func RunDisk(cfg *Config) *Result {
 	res := &Result{Seed: cfg.Seed, Profile: cfg.Profile, Probes: map[string]int64{}}
 	simrt.S = nil
+	simtime.ResetNoSim()
 	d := &diskRun{res: res, images: map[uint64]struct{}{}, rng: simrt.NewRand(cfg.Seed, "disk")}
 	d.lostModel = cfg.LostUnsynced
 	thorough := cfg.Thorough
@@ -706,7 +733,19 @@ type stores struct {
 	sn raft.SnapshotStorage
 }
 
-func openStores() (*stores, error) {
+func openStores() (s *stores, err error) {
+	defer func() {
+		if r := recover(); r != nil {
+			if _, isCrash := r.(simos.CrashPanic); isCrash {
+				panic(r)
+			}
+			s, err = nil, fmt.Errorf("panic while constructing the storages: %v", r)
+		}
+	}()
+	return openStoresUnsafe()
+}
+
+func openStoresUnsafe() (*stores, error) {
 	st, err := raft.NewStateStorage("/d")
 	if err != nil {
 		return nil, fmt.Errorf("NewStateStorage: %w", err)
@@ -718,7 +757,19 @@ func openStores() (*stores, error) {
 	return &stores{st, sn}, nil
 }
 
-func readSnapshot(sn raft.SnapshotStorage) (*snapRec, error) {
+func readSnapshot(sn raft.SnapshotStorage) (rec *snapRec, err error) {
+	defer func() {
+		if r := recover(); r != nil {
+			if _, isCrash := r.(simos.CrashPanic); isCrash {
+				panic(r)
+			}
+			rec, err = nil, fmt.Errorf("panic while reading the snapshot: %v", r)
+		}
+	}()
+	return readSnapshotUnsafe(sn)
+}
+
+func readSnapshotUnsafe(sn raft.SnapshotStorage) (*snapRec, error) {
 	f, err := sn.SnapshotFile()
 	if err != nil {
 		return nil, fmt.Errorf("SnapshotFile: %w", err)
@@ -884,7 +935,14 @@ func (d *diskRun) sweepStore(rng *simrt.Rand, length int, thorough bool) (text s
 			return
 		}
 		// Term/vote: the last returned value or the one being written.
-		t, v, err := s.st.State()
+		t, v, err := func() (t uint64, v string, err error) {
+			defer func() {
+				if r := recover(); r != nil {
+					err = fmt.Errorf("panic in State(): %v", r)
+				}
+			}()
+			return s.st.State()
+		}()
 		if err != nil {
 			d.violate("C13", "state-unreadable", "state", "%s: State() failed: %v", where, err)
 			return
@@ -923,7 +981,15 @@ func (d *diskRun) sweepStore(rng *simrt.Rand, length int, thorough bool) (text s
 		// A node can be constructed over the directory at the first attempt.
 		if got == nil || codecOK(codec, got.Conf) {
 			sm := &nullSM{}
-			_, err := raft.NewRaft("n1", "127.0.0.1:1", sm, "/d", raft.WithTransport(codec), raft.WithLogLevel(logging.Error))
+			err := func() (err error) {
+				defer func() {
+					if r := recover(); r != nil {
+						err = fmt.Errorf("panic while constructing the node: %v", r)
+					}
+				}()
+				_, err = raft.NewRaft("n1", "127.0.0.1:1", sm, "/d", raft.WithTransport(codec), raft.WithLogLevel(logging.Error))
+				return err
+			}()
 			if err != nil {
 				d.violate("C13", "newraft-failed", classifyDiskErr(err), "%s: NewRaft over the crashed directory failed: %v", where, err)
 				return
